@@ -11,8 +11,8 @@ RULE = ("one case = one generated grammar (generators as C01, more LL(1)-ish one
         "sampled sentences (members) ; non-trivial = grammar accepted with is_ambiguous() False for at least one "
         "setting and at least one member and one non-member among the inputs; distinct by protocol text")
 TRUSTED = ["re (lexemes are found by the harness with the tokenizer's own pattern)"]
-ASSUMPTIONS = ["hypotheses of C02.exact / reject_raises: as C01.parse_valid (no `__` name on a right-hand side, start symbol is a "
-               "user key, no lexeme named $END$)",
+ASSUMPTIONS = ["hypotheses of C02.exact / reject_raises / smart_indep: as C01.parse_valid (start symbol is a key of `productions`, "
+               "no lexeme named $END$)",
                "'LL(1) as written => is_ambiguous() False' is proved only as 'is_ambiguous() False <=> the computed predict sets of the "
                "factorised rules are pairwise disjoint' (C02.ll1_as_written_unambiguous_partial); exactness of the computed sets and the "
                "transfer through factorisation rest on the oracle (independent FIRST/FOLLOW on the user's grammar)"]
@@ -58,7 +58,7 @@ def oracle(case, replies):
 def gen_cases(rng, tier):
     diags = ("nullables", "first", "follow", "table")
     if tier == "quick":
-        yield from ll.gen_ll_cases(rng, 3000, 4, sentences=30, ll1_share=0.45, diags=diags)
+        yield from ll.gen_ll_cases(rng, 1200, 4, sentences=30, ll1_share=0.45, diags=diags)
     else:
         yield from ll.gen_ll_cases(rng, 12000, 5, sentences=40, extra_long=10, ll1_share=0.45, diags=diags)
         yield from ll.tiny_grammars(rng, limit=20000)
